@@ -394,7 +394,20 @@ PREDICATES = [
 ]
 
 
+_VEXP_INTERN = {}
+
+
 def vexp_to_python(v):
+    """validator IR -> beartype validator; structurally equal IRs give the very same object (beartype itself
+    memoises only IsEqual / IsInstance / IsSubclass / IsAttr of those; Is[...] and &, |, ~ build fresh objects)"""
+    import json as _json
+    key = _json.dumps(v)
+    if key not in _VEXP_INTERN:
+        _VEXP_INTERN[key] = _vexp_to_python(v)
+    return _VEXP_INTERN[key]
+
+
+def _vexp_to_python(v):
     from beartype.vale import Is, IsAttr, IsEqual, IsInstance, IsSubclass
     t = v[0]
     if t == 'is':
